@@ -82,6 +82,9 @@ def _want_of_arg(P, tz):
         return None
     if isinstance(tz, int):
         return ("fixed", tz * 3600)
+    if isinstance(tz, float):
+        # a number of hours; only quarter hours are exact in binary floating point (4.35 * 3600 is not 15660)
+        return ("fixed", int(tz * 3600)) if tz * 4 == int(tz * 4) and abs(tz) < 24 else None
     return _want_of_tz(tz)
 
 
@@ -291,7 +294,7 @@ def cases(M):
     # fixed-offset targets
     for j in range(20000 if thorough else 2000):
         u = gen.random_instant(r) if j % 2 else gen.modern_instant(r)
-        yield {"op": "conv", "tgt": r.choice((r.randrange(-86399, 86400), r.randrange(-1439, 1440) * 60, 0)), "u": u, "ti": -1,
+        yield {"op": "conv", "tgt": r.choice((r.randrange(-86399, 86400), r.randrange(-1439, 1440) * 60, 0, r.randrange(-95, 96) * 900)), "u": u, "ti": -1,
                "pk": "rand", "sk": r.choice(SRC_KINDS), "src": r.choice(pool), "third": r.choice(names),
                "fx": r.randrange(-1439, 1440) * 60}
     for j in range(20000 if thorough else 3000):
@@ -380,6 +383,18 @@ def run(M, c):
     b = a.in_tz(tgt if isinstance(tgt, str) else ttz)   # contract judges
     b2 = a.astimezone(ttz)                    # contract judges
     ttz.convert(src)                          # convert contract on the foreign value itself
+    if not isinstance(tgt, str) and tgt % 900 == 0:
+        # the same fixed offset requested as a number of hours (int or float: -3.5, 5.75, -0.25)
+        hrs = tgt // 3600 if tgt % 3600 == 0 and c["u"] % 2 else tgt / 3600
+        try:
+            bh = a.in_tz(hrs)                 # contract judges against ('fixed', hours * 3600)
+            M.check("path", (fields(bh), off_us(bh)) == (fields(b), off_us(b)), "C01/hours-target-differs", "in_tz(hours) differs from in_tz(FixedTimezone(seconds))",
+                    a=judge.desc(a), hours=hrs, by_hours=judge.desc(bh), by_seconds=judge.desc(b))
+            th = P.from_timestamp(su // US, tz=hrs)      # contract judges
+            M.check("path", off_us(th) == tgt * US, "C01/hours-target-differs:from_timestamp", "from_timestamp(tz=hours) is not at the requested offset",
+                    hours=hrs, got=judge.desc(th))
+        except (OverflowError, ValueError):
+            M.count("hours_target_out_of_range")
     # path independence A->B->C vs A->C
     third = c["third"]
     p1, p2 = b.in_tz(third), a.in_tz(third)
